@@ -2,7 +2,7 @@
    ExtrOcamlBasic only: bool/option/list/prod/unit/sumbool map to OCaml's; Z,
    positive, nat, Q stay the extracted Coq datatypes.  No Extract Constant. *)
 From Coq Require Import Extraction ExtrOcamlBasic ZArith List.
-Require Import CV.RowLeg CV.RowLegCert CV.RowLegChecked CV.Orient CV.FreeSpace CV.Hpwl CV.Circuit CV.Legalizer CV.Moves CV.Optimiser.
+Require Import CV.RowLeg CV.RowLegCert CV.RowLegChecked CV.Orient CV.FreeSpace CV.Hpwl CV.Circuit CV.Legalizer CV.Moves CV.Optimiser CV.MovesConcrete.
 Extraction Language OCaml.
 Extraction "model.ml"
   RowLeg.run RowLegChecked.checked_run RowLegCert.cert_ok RowLegChecked.mk_cells
@@ -10,4 +10,6 @@ Extraction "model.ml"
   Hpwl.pin_x_offset Hpwl.pin_y_offset Hpwl.placed_width Hpwl.placed_height Hpwl.def_transform Hpwl.hpwl
   Hpwl.circuit_topology Hpwl.incr_trace Hpwl.cell_net_ids
   Orient.cell_orientation_in_row Orient.opposite_row_orientation Orient.is_turn Circuit.prescribed Circuit.legalb Circuit.orient_okb Circuit.trivially_feasible Circuit.free_rows Legalizer.legalize_circuit Legalizer.circuit_after
-  Moves.apply_mop Moves.step_mop Moves.shift_ok Moves.apply_shift Optimiser.otrace.
+  Moves.apply_mop Moves.step_mop Moves.shift_ok Moves.apply_shift Optimiser.otrace
+  MovesConcrete.apply_cop MovesConcrete.cop_pre MovesConcrete.cstate_abs MovesConcrete.crow_make MovesConcrete.cstate_make
+  MovesConcrete.cstate_arrays MovesConcrete.cstate_orients.
